@@ -120,7 +120,8 @@ structure Env where
   rGssKeyex : Nat := 2                 -- check_auth_gssapi_keyex
   rInter : IRes := .code 2             -- check_auth_interactive
   rIResp : IRes := .code 2             -- check_auth_interactive_response
-  keyCanon : Option Bytes := none      -- _generate_key_from_request: the key's own serialisation; none = rejected
+  keyCanon : Option Bytes := none      -- _generate_key_from_request + _get_key_type_and_bits: the public key blob the
+                                       -- signed data carries (the certificate blob for -cert-v01 keys); none = rejected
   mechOk : Bool := true                -- sshgss.ssh_check_mech
   micOk : Bool := true                 -- sshgss.ssh_check_mic did not raise
   kexCtx : Bool := false               -- transport.kexgss_ctxt is not None
